@@ -21,8 +21,8 @@ import (
 const (
 	procName     = "c17rpc"
 	shortTimeout = 80 * time.Millisecond
-	longTimeout  = 30 * time.Second
-	watchdog     = 4 * time.Second // a single blocking call of the layer must return within this time
+	longTimeout  = 150 * time.Second // only ever waited out by broken code; long enough that a loaded machine cannot let a parked request expire during stress ops
+	watchdog     = 8 * time.Second // a single blocking call of the layer must return within this time
 )
 
 var (
